@@ -277,6 +277,8 @@ def fixture_spec(rng, tok, depth=0):
         spec["cleanup"] = rng.choice(["error", "fail"])
     if rng.random() < 0.3:
         spec["live"] = True
+    if spec["setup"] == "ok" and spec["cleanup"] == "ok" and rng.random() < 0.15:
+        spec["cleanup_override"] = True
     if depth < 1 and rng.random() < 0.25:
         spec["nested"] = fixture_spec(rng, tok, depth + 1)
     return spec
